@@ -42,6 +42,11 @@ structure CancelMsg where
   aid : Nat
   deriving Repr, Inhabited
 
+structure UpdateParamsMsg where
+  signer : Acc
+  params : Params
+  deriving Repr, Inhabited
+
 structure AddAllowedMsg where
   aid : Nat
   ab : AllowedArg
@@ -79,7 +84,7 @@ inductive GVal where
   | int (i : Int) | nat (n : Nat) | bool (b : Bool) | coin (c : Coin) | bid (b : Bid)
   | addr (a : Addr) | status (s : Status) | auction (a : Auction) | vq (q : VQ) | ints (l : List Int)
   | bidType (t : BidType) | sched (l : List VS) | allowed (l : List AllowedArg) | allowed1 (a : AllowedArg)
-  | minfo (m : MInfo)
+  | minfo (m : MInfo) | params (p : Params)
   deriving Repr
 
 /-- the calls a translated keeper function can record: store writes, bank / distribution
@@ -91,7 +96,7 @@ inductive GName where
   | beforeAllowedBidderUpdated | beforeFixedCreated | afterFixedCreated | beforeBatchCreated | afterBatchCreated
   | execStandBy | execStarted | execVesting | closeFixed | closeBatch | extendRound
   | allocateSellingCoin | refundRemainingSellingCoin | refundPayingCoin | applyVestingSchedules
-  | calcBatch
+  | calcBatch | paramsSet | matchedLenSet
   deriving DecidableEq, Repr
 
 /-- one recorded call of a translated keeper function -/
